@@ -2,6 +2,8 @@
 # ./run.sh <Cxx> quick|thorough   — rebuilds the harness against /repo's current
 # working tree (hooks on: -tags verif) and runs one check.
 # ./run.sh replay <file>          — re-runs one recorded case.
+# Checks that own map-iteration order / goroutine schedules are built from the
+# instrumented overlay of /repo (see harness/instr); /repo itself is untouched.
 set -u
 cd "$(dirname "$0")"
 VERIF_DIR=$(pwd); export VERIF_DIR
@@ -9,10 +11,45 @@ VERIF_DIR=$(pwd); export VERIF_DIR
 mkdir -p .work/bin evidence replays
 id=${1:?usage: run.sh <id> quick|thorough}
 tier=${2:-quick}
+OVERLAY_CHECKS=" C10 C16 C17 C20 "
+
 build() { # $1 = output name, rest = extra go build args
   local out=$1; shift
-  (cd harness && go build -tags verif "$@" -o "$VERIF_DIR/.work/bin/$out" ./cmd/verifcheck) || {
-    echo "INTERNAL-ERROR: harness build failed ($out)" >&2; exit 2; }
+  (cd harness && go build -tags verif "$@" -o "$VERIF_DIR/.work/bin/$out" ./cmd/verifcheck)
 }
-build verifcheck
+
+need_overlay=0
+case "$OVERLAY_CHECKS" in *" $id "*) need_overlay=1;; esac
+if [ "$id" = replay ]; then
+  prop=$(grep -o '"property": *"[^"]*"' "$tier" | head -1 | sed 's/.*"\(C[0-9]*\)"/\1/')
+  case "$OVERLAY_CHECKS" in *" $prop "*) need_overlay=1;; esac
+fi
+
+if [ $need_overlay = 1 ]; then
+  (cd harness && go build -o "$VERIF_DIR/.work/bin/instr" ./instr) || { echo "INTERNAL-ERROR: instrumenter build failed" >&2; exit 2; }
+  # cache key: every non-test source of the module + the instrumenter + the runtime shims
+  key=$( (cd /repo && find . -name '*.go' ! -name '*_test.go' -not -path './.git/*' | sort | xargs sha256sum; sha256sum "$VERIF_DIR/.work/bin/instr" "$VERIF_DIR"/harness/vrt/*/*.go) | sha256sum | cut -c1-16)
+  ov="$VERIF_DIR/.work/overlay/$key"
+  mode=full
+  if [ ! -f "$ov/overlay.json" ]; then
+    find "$VERIF_DIR/.work/overlay" -mindepth 1 -maxdepth 1 -mmin +180 -exec rm -rf {} + 2>/dev/null; mkdir -p "$ov"
+    (cd /repo && "$VERIF_DIR/.work/bin/instr" -repo /repo -out "$ov" -vrt "$VERIF_DIR/harness/vrt") >"$ov/instr.log" 2>&1 || { cat "$ov/instr.log" >&2; rm -f "$ov/overlay.json"; }
+  fi
+  if [ -f "$ov/overlay.json" ] && build verifcheck-ov -tags "verif overlay" -overlay "$ov/overlay.json" 2>"$ov/build.log"; then
+    :
+  else
+    # degraded: map ranges only, real sync (never produces a violation by itself)
+    [ -f "$ov/build.log" ] && head -20 "$ov/build.log" >&2
+    mode=light; ovl="$ov.light"; mkdir -p "$ovl"
+    if (cd /repo && "$VERIF_DIR/.work/bin/instr" -light -repo /repo -out "$ovl" -vrt "$VERIF_DIR/harness/vrt") >"$ovl/instr.log" 2>&1 \
+       && build verifcheck-ov -tags "verif overlay" -overlay "$ovl/overlay.json"; then
+      ov=$ovl
+    else
+      echo "INTERNAL-ERROR: instrumented build failed (full and light)" >&2; exit 2
+    fi
+  fi
+  export VERIF_INSTR=$mode VERIF_INSTR_REPORT="$ov/report.json"
+  exec ./.work/bin/verifcheck-ov "$id" "$tier"
+fi
+build verifcheck || { echo "INTERNAL-ERROR: harness build failed" >&2; exit 2; }
 exec ./.work/bin/verifcheck "$id" "$tier"
